@@ -97,12 +97,35 @@ def pred_fr_plural_cents(case, v):
     return bool(re.search(r'\bcents\b', phrase(case)))
 
 
-def pred_fr_million_cent(case, v):
-    """French: a million/milliard word followed by a thousands group that contains 'cent' (un million six cent ... mille)."""
+def _fr_groups(n):
+    bi, rest = divmod(n, 10 ** 9)
+    mi, rest = divmod(rest, 10 ** 6)
+    th, r = divmod(rest, 1000)
+    return bi, mi, th, r
+
+
+def pred_fr_un_million_remainder(case, v):
+    """French: 'un million' / 'un milliard' (coefficient exactly 1) followed by a remainder of 100 or more multiplies
+    instead of adding ('un million six cent trente-deux mille ...' -> 100000632955)."""
     if case['culture'] != 'fr-fr':
         return False
-    n = case['n']
-    return n >= 10 ** 6 and (n // 1000) % 1000 >= 100
+    bi, mi, th, r = _fr_groups(case['n'])
+    return (bi == 1 and case['n'] % 10 ** 9 >= 100) or (mi == 1 and case['n'] % 10 ** 6 >= 100)
+
+
+def pred_fr_bare_cent_group(case, v):
+    """French: a group that is exactly 'cent' (100) after a higher scale word and before 'mille'/'millions' is split off
+    ('quatre-vingts millions cent mille' -> 80000100 + 1000)."""
+    if case['culture'] != 'fr-fr':
+        return False
+    bi, mi, th, r = _fr_groups(case['n'])
+    return (th == 100 and (mi or bi)) or (mi == 100 and bi)
+
+
+def pred_fr_leading_cent_inside_sentence(case, v):
+    """French: a numeral that starts with a bare 'cent' and does not stand at the start of the query loses its last word
+    ('x cent quatre-vingt-six y' -> 180 and 6; the same phrase at position 0 is read correctly)."""
+    return case['culture'] == 'fr-fr' and case['carrier'] != '{}' and phrase(case).startswith('cent ')
 
 
 def pred_ja_not_chinese_compatible(case, v):
@@ -130,7 +153,9 @@ def pred_pt_milhao_e_mil(case, v):
 PREDICATES = {
     'c04_en_ordinal_teen_group': pred_en_ordinal_teen_group,
     'c04_fr_plural_cents': pred_fr_plural_cents,
-    'c04_fr_million_cent': pred_fr_million_cent,
+    'c04_fr_un_million_remainder': pred_fr_un_million_remainder,
+    'c04_fr_bare_cent_group': pred_fr_bare_cent_group,
+    'c04_fr_leading_cent_inside_sentence': pred_fr_leading_cent_inside_sentence,
     'c04_ja_not_chinese_compatible': pred_ja_not_chinese_compatible,
     'c04_pt_milhao_e_mil': pred_pt_milhao_e_mil,
     'c04_ja_ordinal_leading_ten': pred_ja_ordinal_leading_ten,
